@@ -25,6 +25,9 @@ func genCase(t *rapid.T) Case {
 	}
 	c.Auth = rapid.Bool().Draw(t, "auth")
 	c.App = gen.CString(200).Draw(t, "app")
+	if rapid.IntRange(0, 2).Draw(t, "prelude?") == 0 {
+		c.Prelude = rapid.SliceOfN(rapid.SampledFrom([]string{"reject", "reject", "cancel", "short"}), 1, 4).Draw(t, "prelude")
+	}
 	n := rapid.IntRange(5, 60).Draw(t, "nmsgs")
 	fillLevel, capNow := 0, 0
 	inCopy, bound, parsed := false, false, false
